@@ -2,6 +2,7 @@
 From Coq Require Import List Arith ZArith.
 Import ListNotations.
 From SymfcV Require Import Spg Group Concrete.
+From SymfcG Require Import IndepGen.
 Open Scope Z_scope.
 
 (** positions p_i / D, operations (r, s / D), matching modulo D: the permutation of an operation is
@@ -43,3 +44,12 @@ Proof.
   - apply orbit_length.
 Qed.
 Print Assumptions c14_orbit_size.
+
+(** p2s_map = get_indep_atoms_by_lat_trans(translation permutations) (regenerated), and that greedy scan lists exactly
+    one atom per orbit of the translations: the lowest index, in increasing order. *)
+Theorem c14_p2s_map_in_force : indep_atoms_is_greedy_column_scan = true.
+Proof. reflexivity. Qed.
+Theorem c14_p2s_map_is_orbit_minima N tp :
+  valid_tp N tp = true -> indep_scan (length tp) N (act tp) = indep_atoms (length tp) N (act tp).
+Proof. exact (indep_scan_t N tp). Qed.
+Print Assumptions c14_p2s_map_is_orbit_minima.
